@@ -34,6 +34,7 @@ type store struct {
 	latest  uint64 // last value given to UpdateSnapshotState (kept in memory only by RockDB)
 	mc      node.MachineConfig
 	ci      common.IClusterInfo
+	reqID   uint64
 }
 
 var baseTs = time.Now().UnixNano()
@@ -54,7 +55,18 @@ func openStore(dir, eng string, keep int) (*store, error) {
 	return openStoreCluster(dir, eng, keep, node.MachineConfig{}, nil)
 }
 
-func openStoreCluster(dir, eng string, keep int, mc node.MachineConfig, ci common.IClusterInfo) (*store, error) {
+func openStoreCluster(dir, eng string, keep int, mc node.MachineConfig, ci common.IClusterInfo) (st *store, err error) {
+	// a Go panic while the store opens (for example while the engine loads a restored checkpoint)
+	// is an outcome of the code under test, not a reason for the harness to die
+	defer func() {
+		if r := recover(); r != nil {
+			st, err = nil, fmt.Errorf("panic while opening the store: %v", r)
+		}
+	}()
+	return openStoreCluster0(dir, eng, keep, mc, ci)
+}
+
+func openStoreCluster0(dir, eng string, keep int, mc node.MachineConfig, ci common.IClusterInfo) (*store, error) {
 	opts := &node.KVOptions{
 		DataDir:          dir,
 		EngType:          rockredis.EngType,
@@ -92,7 +104,12 @@ func (s *store) close() {
 }
 
 // reopen: Close waits for the backup goroutine (its purge included), then the same directory is opened again.
-func (s *store) reopen() error {
+func (s *store) reopen() (err error) {
+	defer func() {
+		if r := recover(); r != nil {
+			err = fmt.Errorf("panic: %v", r)
+		}
+	}()
 	s.close()
 	n, err := openStoreCluster(s.dir, s.eng, s.keep, s.mc, s.ci)
 	if err != nil {
@@ -148,6 +165,10 @@ func ckName(t, i uint64) string { return rockredis.GetCheckpointDir(t, i) }
 // the backup goroutine still finishing the previous request) is retried: it is not an outcome the
 // property speaks about and depends on goroutine timing.
 func (s *store) backupStart(t, i uint64) string {
+	return guard(func() string { return s.backupStart0(t, i) })
+}
+
+func (s *store) backupStart0(t, i uint64) string {
 	if s.pending != nil {
 		return "busy"
 	}
@@ -165,6 +186,10 @@ func (s *store) backupStart(t, i uint64) string {
 
 // backupFinish = KVSnapInfo.GetData: wait for the copy.
 func (s *store) backupFinish() string {
+	return guard(func() string { return s.backupFinish0() })
+}
+
+func (s *store) backupFinish0() string {
 	if s.pending == nil {
 		return "none"
 	}
@@ -176,7 +201,21 @@ func (s *store) backupFinish() string {
 	return "ok"
 }
 
+// guard runs a store call; a Go panic inside the code under test becomes the outcome "panic"
+func guard(f func() string) (res string) {
+	defer func() {
+		if r := recover(); r != nil {
+			res = "panic"
+		}
+	}()
+	return f()
+}
+
 func (s *store) restore(t, i uint64) string {
+	return guard(func() string { return s.restore0(t, i) })
+}
+
+func (s *store) restore0(t, i uint64) string {
 	var snap raftpb.Snapshot
 	snap.Metadata.Term = t
 	snap.Metadata.Index = i
@@ -193,6 +232,10 @@ func (s *store) restore(t, i uint64) string {
 // prepare = kvStoreSM.PrepareSnapshot: what a lagging replica does before RestoreFromSnapshot when it
 // has no local checkpoint of that (term,index): find a peer that has it, reuse, copy, mark the source.
 func (s *store) prepare(t, i uint64) string {
+	return guard(func() string { return s.prepare0(t, i) })
+}
+
+func (s *store) prepare0(t, i uint64) string {
 	var snap raftpb.Snapshot
 	snap.Metadata.Term = t
 	snap.Metadata.Index = i
@@ -295,11 +338,46 @@ func (s *store) copyCkToRemote(d *store, t, i uint64) string {
 	return "ok"
 }
 
+// custom applies a custom raft request (node.CustomReq) through ApplyRaftRequest, as the raft apply
+// loop does for the cluster-syncer's snapshot requests; returns the error ApplyRaftRequest reports.
+func (s *store) custom(op int, syncAddr, syncPath string, t, i uint64) string {
+	return guard(func() string {
+		data := fmt.Sprintf(`{"ProposeOp":%d,"SyncAddr":%q,"SyncPath":%q,"RemoteTerm":%d,"RemoteIndex":%d}`, op, syncAddr, syncPath, t, i)
+		s.reqID++
+		id := 1<<40 + s.reqID
+		wr := s.x.W.Register(id)
+		var rl node.BatchInternalRaftRequest
+		rl.ReqNum = 1
+		rl.Timestamp = nextTs()
+		rl.Reqs = []node.InternalRaftRequest{{Header: node.RequestHeader{ID: id, DataType: int32(node.CustomReq), Timestamp: rl.Timestamp}, Data: []byte(data)}}
+		b := s.x.SM.GetBatchOperator()
+		_, err := s.x.SM.ApplyRaftRequest(false, b, rl, 1, id, make(chan struct{}))
+		b.CommitBatch()
+		if s.x.W.IsRegistered(id) {
+			s.x.W.Trigger(id, nil)
+		}
+		select {
+		case <-wr.WaitC():
+		default:
+		}
+		if err != nil {
+			return "err"
+		}
+		if e, ok := wr.GetResult().(error); ok && e != nil {
+			return "err"
+		}
+		return "ok"
+	})
+}
+
+// transferRemoteFrom: ProposeOp_TransferRemoteSnap naming store src (same host) as the source
+func (s *store) transferRemoteFrom(src *store, t, i uint64) string {
+	return s.custom(node.ProposeOp_TransferRemoteSnap, "", src.dir, t, i)
+}
+
+// restoreRemote: ProposeOp_ApplyRemoteSnap = RockDB.RestoreFromRemoteBackup
 func (s *store) restoreRemote(t, i uint64) string {
-	if err := s.db().RestoreFromRemoteBackup(t, i); err != nil {
-		return "err"
-	}
-	return "ok"
+	return s.custom(node.ProposeOp_ApplyRemoteSnap, "", "", t, i)
 }
 
 // copyCkTo: what prepareSnapshotForStore does for a local source: a stale directory of the same
